@@ -8,12 +8,12 @@ mod verif_kani_array {
     /// A hasher that records what is written to it (so that "equal hash" is
     /// "equal byte string written", independent of any hash function).
     pub(crate) struct Rec {
-        pub buf: [u8; 40],
+        pub buf: [u8; 96],
         pub n: usize,
     }
     impl Rec {
         pub fn new() -> Self {
-            Rec { buf: [0; 40], n: 0 }
+            Rec { buf: [0; 96], n: 0 }
         }
         pub fn same(&self, o: &Rec) -> bool {
             self.n == o.n && self.buf == o.buf
@@ -25,7 +25,7 @@ mod verif_kani_array {
         }
         fn write(&mut self, bytes: &[u8]) {
             for b in bytes {
-                if self.n < 40 {
+                if self.n < 96 {
                     self.buf[self.n] = *b;
                 }
                 self.n += 1;
@@ -205,6 +205,75 @@ mod verif_kani_array {
         let b = anyf();
         kani::assume(a.is_nan() && !b.is_nan());
         assert!(a.array_cmp(&b) == Ordering::Less);
+    }
+
+    // ---------------- C15 / C06: arrays on enumerated shapes (bounded) ----------------
+    fn arr_u8<const N: usize, const R: usize>(shape: [usize; R]) -> Array<u8> {
+        let d: [u8; N] = kani::any();
+        Array::new(shape, crate::cowslice::CowSlice::from(d))
+    }
+    fn hash_arr<T: ArrayValue>(a: &Array<T>) -> Rec {
+        let mut r = Rec::new();
+        a.hash(&mut r);
+        r
+    }
+    fn total_order3<T: ArrayValue>(a: &Array<T>, b: &Array<T>, c: &Array<T>) {
+        // antisymmetry + transitivity + 'equal' coincides with ==
+        assert!(a.cmp(b) == b.cmp(a).reverse());
+        assert!((a.cmp(b) == Ordering::Equal) == (a == b));
+        if a.cmp(b) != Ordering::Greater && b.cmp(c) != Ordering::Greater {
+            assert!(a.cmp(c) != Ordering::Greater);
+        }
+        if a == b {
+            assert!(hash_arr(a).same(&hash_arr(b)));
+        }
+    }
+    //@ id=C15.e1.array.total_order.same_shape_2x2 props=C15,C09 level=bounded tier=quick budget=900 bound="three byte arrays of shape 2x2" desc="Array eq/cmp/hash laws on equal shapes"
+    #[kani::proof]
+    #[kani::unwind(8)]
+    fn vk_c15_array_same_shape() {
+        let a = arr_u8::<4, 2>([2, 2]);
+        let b = arr_u8::<4, 2>([2, 2]);
+        let c = arr_u8::<4, 2>([2, 2]);
+        total_order3(&a, &b, &c);
+    }
+    //@ id=C15.e1.array.total_order.mixed_rank props=C15,C09 level=bounded tier=quick budget=900 bound="byte arrays of shapes [2], [1,2], [2,1]" desc="Array eq/cmp/hash laws across ranks"
+    #[kani::proof]
+    #[kani::unwind(8)]
+    fn vk_c15_array_mixed_rank() {
+        let a = arr_u8::<2, 1>([2]);
+        let b = arr_u8::<2, 2>([1, 2]);
+        let c = arr_u8::<2, 2>([2, 1]);
+        total_order3(&a, &b, &c);
+        total_order3(&b, &c, &a);
+        total_order3(&c, &a, &b);
+    }
+    //@ id=C15.e1.array.total_order.same_rank_different_shape props=C15 level=bounded tier=quick budget=900 bound="byte arrays of shapes [1,4], [2,1], [2,2]" desc="Array ordering is transitive across same-rank arrays of different shapes"
+    #[kani::proof]
+    #[kani::unwind(8)]
+    fn vk_c15_array_same_rank_diff_shape() {
+        let a = arr_u8::<4, 2>([1, 4]);
+        let b = arr_u8::<2, 2>([2, 1]);
+        let c = arr_u8::<4, 2>([2, 2]);
+        total_order3(&a, &b, &c);
+        total_order3(&b, &c, &a);
+        total_order3(&c, &a, &b);
+    }
+    //@ id=C06.e1.array.byte_vs_float_same_numbers props=C06,C15,C09 level=bounded tier=quick budget=900 bound="shape 2x2" desc="a byte array and the float array holding the same numbers are equal, ordered alike against a third array and hash alike"
+    #[kani::proof]
+    #[kani::unwind(8)]
+    fn vk_c06_array_byte_vs_float() {
+        let d: [u8; 4] = kani::any();
+        let e: [u8; 4] = kani::any();
+        let ab = Array::<u8>::new([2, 2], crate::cowslice::CowSlice::from(d));
+        let af = Array::<f64>::new([2, 2], crate::cowslice::CowSlice::from([d[0] as f64, d[1] as f64, d[2] as f64, d[3] as f64]));
+        let ob = Array::<u8>::new([2, 2], crate::cowslice::CowSlice::from(e));
+        let of = Array::<f64>::new([2, 2], crate::cowslice::CowSlice::from([e[0] as f64, e[1] as f64, e[2] as f64, e[3] as f64]));
+        assert!(ab == af && af == ab);
+        assert!(ab.cmp(&ob) == af.cmp(&of));
+        assert!(ab.partial_cmp(&of) == af.partial_cmp(&of));
+        assert!(hash_arr(&ab).same(&hash_arr(&af)));
+        assert!(ab.is_sorted_up() == af.is_sorted_up() && ab.is_sorted_down() == af.is_sorted_down());
     }
 
     // ---------------- C17: F64Rep ----------------
